@@ -3,6 +3,7 @@ import Mastverif.Lemmas.RefDelSys
 import Mastverif.Lemmas.PtrGo
 import Mastverif.Lemmas.History
 import Mastverif.Lemmas.RefHistExample
+import Mastverif.Lemmas.RefIterEntries
 /-!
 # C01 at the level of node objects (property theorems)
 
@@ -26,6 +27,11 @@ functional tree `A` (every field of the record, every residency flag).  Then
 * `C01_object_level_other_trees`: every other tree over the same heap, store and cache denotes
   what it denoted (whether the call succeeds or fails);
 * `C01_object_level_persist / _load / _clone`: `MakeRoot`, `LoadMast`, `Clone`;
+* `C01_object_level_iterate`: `Iter` (`node.iter` over the objects, every child loaded through the
+  store / cache, any pattern of failing loads) hands to its callback exactly the entries of `A` in
+  ascending position order, each once, and is an allocation-only step (every tree denotes what it
+  denoted); `C01_object_level_iterate_is_the_history_step`: on the state it is the walk that
+  `Sys.apply` performs for an `.iter` call;
 * `C01_object_level_history` (+ `_from_empty`): the statement along a whole `Sys.run` history of any
   number of trees over one heap, store and cache;
 * `C01_object_level_insert_then_lookup`: the consequences with
@@ -158,6 +164,65 @@ theorem C01_object_level_clone (E : Env) (t t' : PTree) (newId fuel g : Nat) (s 
   obtain ⟨_, h2, _, h4, h5, _, _, _, h9⟩ := clone_refines E t t' newId fuel g s s' A hg hA h
   exact ⟨h2, h4, h5, h9⟩
 
+/-- `Iter`: the list of entries handed to the callback (`iterEntries`, Model/PtrIter.lean — the walk
+    of `node.iter` over the objects, loading every child through the cache / store, with any
+    pattern of failing loads and any fuel) is exactly the entry list of the functional tree the
+    objects denote; failed or not, the call is an allocation-only step: every tree of the system
+    (`t2`, in particular `t` itself) denotes what it denoted, with the same footprint -/
+theorem C01_object_level_iterate (E : Env) (t : PTree) (fuel g : Nat) (s : PS) (A : Tree)
+    (hg : Good s) (hA : repTree s g t = some A) :
+    match iterEntries E fuel t.root s with
+    | .ok es s' => es = A.toList ∧ Good s' ∧
+        ∀ g2 t2 B, repTree s g2 t2 = some B → FpOwned s.heap t2.id (footprint s g2 t2) →
+          repTree s' g2 t2 = some B ∧ FpOwned s'.heap t2.id (footprint s' g2 t2)
+    | .err s' => Good s' ∧
+        ∀ g2 t2 B, repTree s g2 t2 = some B → FpOwned s.heap t2.id (footprint s g2 t2) →
+          repTree s' g2 t2 = some B ∧ FpOwned s'.heap t2.id (footprint s' g2 t2)
+    | _ => True := by
+  obtain ⟨x, hx, _, hAeq⟩ := repTree_eq_some.mp hA
+  have h := iterEntries_spec (m := t.id) E fuel g t.root s hg x hx
+  unfold Spec at h
+  have htl : A.toList = x.2.1.toList := by
+    rw [hAeq]; simp [Tree.toList, treeRec]
+  cases hr : iterEntries E fuel t.root s with
+  | ok es s' =>
+    rw [hr] at h
+    refine ⟨by rw [htl]; exact h.2, h.1.good hg, ?_⟩
+    intro g2 t2 B hB hown
+    exact ⟨(h.1.tree hB hown).1, (h.1.tree hB hown).2.1⟩
+  | err s' =>
+    rw [hr] at h
+    refine ⟨h.good hg, ?_⟩
+    intro g2 t2 B hB hown
+    exact ⟨(h.tree hB hown).1, (h.tree hB hown).2.1⟩
+  | stuck => trivial
+  | panic => trivial
+  | oof => trivial
+
+/-- … and on the state it is the very walk `Sys.apply` runs for an `.iter` call (so
+    `C01_object_level_history` speaks about it) -/
+theorem C01_object_level_iterate_is_the_history_step (E : Env) (fuel : Nat) (l : HLink) (s : PS) :
+    Erases (iterEntries E fuel l s) (iterAll E fuel l s) :=
+  iterEntries_erase E fuel l s
+
+/-- (`Erases r r'` unfolded: same outcome and same end state) -/
+example (E : Env) (fuel : Nat) (l : HLink) (s s' : PS) (es : List (Nat × Nat))
+    (h : iterEntries E fuel l s = .ok es s') : iterAll E fuel l s = .ok () s' := by
+  have := iterEntries_erase E fuel l s
+  rw [h] at this; exact this
+
+/-- non-vacuity (kernel-checked): in the system reached by the history `hxOps` (growth, flush,
+    clone, cached reload, delete — `Lemmas/RefHistExample.lean`) tree 2, whose nodes are partly names
+    in the store and partly objects, is iterated: the walk loads what it needs and yields the entries
+    that the tree denotes -/
+def hxIter2 : Option (List (Nat × Nat)) :=
+  hxSys.trees[2]?.bind fun t =>
+    match iterEntries hxEnv 10 t.root hxSys.ps with
+    | .ok es _ => some es
+    | _ => none
+example : hxIter2 = some [(3, 30), (4, 40), (5, 50), (7, 70), (8, 80)] ∧
+    hxIter2 = hxSys.trees[2]?.bind fun t => (repTree hxSys.ps 10 t).map Tree.toList := by decide +kernel
+
 /-- **the whole history**: from any system that satisfies the invariant `RSys` (in particular the
     empty one), along ANY history of loads of persisted roots (branch factor ≥ 2), inserts, deletes,
     lookups, iterations, persists and clones on any of its trees — with any layer function, any
@@ -205,6 +270,8 @@ end Mast.Ptr
 #print axioms Mast.Ptr.C01_object_level_persist
 #print axioms Mast.Ptr.C01_object_level_load
 #print axioms Mast.Ptr.C01_object_level_clone
+#print axioms Mast.Ptr.C01_object_level_iterate
+#print axioms Mast.Ptr.C01_object_level_iterate_is_the_history_step
 #print axioms Mast.Ptr.C01_object_level_history
 #print axioms Mast.Ptr.C01_object_level_history_from_empty
 #print axioms Mast.Ptr.C01_driver_insert_is_insert
